@@ -5,6 +5,7 @@
 //@op flatten
 //@properties C01 C02 C03 C04 C05 C06 C11 C13 C14 C17 C20
 //@ignore ctor = let source = source.into(); Tok_flatten {}
+//@token inner_source_talkback => Tok_inner_source_talkback { my_gen: my_gen }
 //@heap Heap
 //@tp T
 //@celltp
@@ -19,7 +20,7 @@ impl InnerSrc { pub fn into(self) -> (r: InnerSrc) ensures r == self { self } }
 impl OuterSrc { pub fn into(self) -> (r: OuterSrc) ensures r == self { self } }
 #[derive(Clone, Copy)] pub struct Tok_sink_talkback {}
 #[derive(Clone, Copy)] pub struct Tok_outer_source_talkback {}
-#[derive(Clone, Copy)] pub struct Tok_inner_source_talkback {}
+#[derive(Clone, Copy)] pub struct Tok_inner_source_talkback { pub my_gen: usize }
 
 pub struct G<T> {
     pub dn: DnLink<T>,
@@ -28,14 +29,18 @@ pub struct G<T> {
     pub arr: Seq<T>,              // data received from inner sources, in arrival order
 }
 pub struct Cap { pub pullable: bool }
-pub struct Heap { pub outer_talkback: Option<OuterTb>, pub inner_talkback: Option<InnerTb>, pub alloc_outer_talkback: bool, pub alloc_inner_talkback: bool }
+pub struct Heap { pub outer_talkback: Option<OuterTb>, pub inner_talkback: Option<InnerTb>, pub inner_live: bool, pub inner_gen: usize, pub ended: bool,
+    pub alloc_outer_talkback: bool, pub alloc_inner_talkback: bool, pub alloc_inner_live: bool, pub alloc_inner_gen: bool, pub alloc_ended: bool }
 //@cell outer_talkback: Option<OuterTb> = swap_option
 //@cell inner_talkback: Option<InnerTb> = swap_option
+//@cell inner_live: bool = atomic
+//@cell inner_gen: usize = atomic
+//@cell ended: bool = atomic
 
 pub open spec fn cap_ok(c: Cap) -> bool { true }
 pub open spec fn g_init<T>() -> G<T> { G { dn: dn_init(), outer: up_init(), inners: Seq::empty(), arr: Seq::empty() } }
-pub open spec fn none_alloc(h: Heap) -> bool { !h.alloc_outer_talkback && !h.alloc_inner_talkback }
-pub open spec fn all_alloc(h: Heap) -> bool { h.alloc_outer_talkback && h.alloc_inner_talkback }
+pub open spec fn none_alloc(h: Heap) -> bool { !h.alloc_outer_talkback && !h.alloc_inner_talkback && !h.alloc_inner_live && !h.alloc_inner_gen && !h.alloc_ended }
+pub open spec fn all_alloc(h: Heap) -> bool { h.alloc_outer_talkback && h.alloc_inner_talkback && h.alloc_inner_live && h.alloc_inner_gen && h.alloc_ended }
 #[verifier::external_body] pub fn fresh_heap() -> (h: Heap) ensures none_alloc(h) { unimplemented!() }
 pub open spec fn alive(p: Up) -> bool { p == Up::Live || p == Up::Subscribing }
 pub open spec fn itb<T>(h: Heap, g: G<T>) -> int { h.inner_talkback->Some_0.gen@ }
@@ -53,6 +58,10 @@ pub open spec fn inv_safe<T>(h: Heap, g: G<T>, c: Cap) -> bool {
     &&& (h.inner_talkback is Some ==> 0 <= itb(h, g) < g.inners.len())
     &&& (g.outer.phase == Up::Live ==> h.outer_talkback is Some)
     &&& (forall|j: int| 0 <= j < g.inners.len() && g.inners[j].phase == Up::Live ==> h.inner_talkback is Some && itb(h, g) == j)
+    // the generation counter counts the inner sources subscribed so far; `inner_live` says that the latest one is in progress
+    &&& h.inner_gen == g.inners.len()
+    &&& (!dn_over(g.dn.phase) ==> (h.inner_live <==> g.inners.len() > 0 && alive(g.inners.last().phase)))
+    &&& (h.ended <==> dn_over(g.dn.phase))
 }
 pub open spec fn inv_gen<T>(h: Heap, g: G<T>, c: Cap) -> bool {
     &&& (forall|j: int| 0 <= j < g.inners.len() - 1 ==> !alive((#[trigger] g.inners[j]).phase))
@@ -168,7 +177,7 @@ pub fn outer_events<T>(h: &mut Heap, g: &mut Ghost<G<T>>, c: &Cap)
         let ghost outstanding = g@.outer.data.len() < g@.outer.pulls;
         if ghost_test(Ghost(live)) {
             if !c.pullable || ghost_test(Ghost(outstanding)) {
-                if nondet_bool() { flatten__outer_source_talkback(h, g, c, Message::Data(InnerSrc { gen: Ghost(g@.inners.len() as int) })); }
+                if nondet_bool() { assume_gens_bounded(g); flatten__outer_source_talkback(h, g, c, Message::Data(InnerSrc { gen: Ghost(g@.inners.len() as int) })); }
                 else if nondet_bool() { flatten__outer_source_talkback(h, g, c, Message::Terminate); }
                 else { flatten__outer_source_talkback(h, g, c, Message::Error(nondet_u64())); }
             }
@@ -256,9 +265,9 @@ pub fn inner_events<T>(h: &mut Heap, g: &mut Ghost<G<T>>, c: &Cap, k: Ghost<int>
         let ghost outstanding = 0 <= k@ < g@.inners.len() && g@.inners[k@].data.len() < g@.inners[k@].pulls;
         if ghost_test(Ghost(live)) {
             if !c.pullable || ghost_test(Ghost(outstanding)) {
-                if nondet_bool() { flatten__inner_source_talkback(h, g, c, k, Message::Data(nondet::<T>())); }
-                else if nondet_bool() { flatten__inner_source_talkback(h, g, c, k, Message::Terminate); }
-                else { flatten__inner_source_talkback(h, g, c, k, Message::Error(nondet_u64())); }
+                if nondet_bool() { flatten__inner_source_talkback(h, g, c, k, nondet_gen(k), Message::Data(nondet::<T>())); }
+                else if nondet_bool() { flatten__inner_source_talkback(h, g, c, k, nondet_gen(k), Message::Terminate); }
+                else { flatten__inner_source_talkback(h, g, c, k, nondet_gen(k), Message::Error(nondet_u64())); }
             }
         }
     }
@@ -290,10 +299,14 @@ impl InnerSrc {
             mono(*old(h), self.post(old(g)@, m), *final(h), final(g)@),
     {
         proof { g@ = self.post(g@, m); }
-        flatten__inner_source_talkback(h, g, c, self.gen, Message::Handshake(InnerTb { gen: self.gen }));
+        flatten__inner_source_talkback(h, g, c, self.gen, nondet_gen(self.gen), Message::Handshake(InnerTb { gen: self.gen }));
         inner_events(h, g, c, self.gen);
     }
 }
+/// assumption: fewer than 2^64 inner sources per subscription (the generation counter does not wrap)
+#[verifier::external_body] pub fn assume_gens_bounded<T>(g: &Ghost<G<T>>) ensures g@.inners.len() < usize::MAX { unimplemented!() }
+/// the generation number an inner handler captured when it was created (its closure carries `my_gen`)
+#[verifier::external_body] pub fn nondet_gen(k: Ghost<int>) -> (r: usize) ensures r == k@ + 1 { unimplemented!() }
 /// the one transient state: generation k has been subscribed and has not greeted yet
 pub open spec fn pre_greet<T>(h: Heap, g: G<T>, c: Cap, k: int) -> bool {
     &&& k == g.inners.len() - 1 && k >= 0
@@ -333,7 +346,7 @@ pub fn flatten__sink_talkback<T>(h: &mut Heap, g: &mut Ghost<G<T>>, c: &Cap, mes
         message is Pull && old(g)@.inners.len() > 0 && old(g)@.inners.last().phase == Up::Live ==> final(g)@.inners[old(g)@.inners.len() - 1].pulls > old(g)@.inners.last().pulls, /* @C11 a Pull goes to the active inner if there is one */
         message is Pull && !(old(g)@.inners.len() > 0 && old(g)@.inners.last().phase == Up::Live) && old(g)@.outer.phase == Up::Live ==> final(g)@.outer.pulls > old(g)@.outer.pulls, /* @C11 a Pull goes to the outer when no inner is active */
 {
-    let outer_talkback = Cell_outer_talkback {}; let inner_talkback = Cell_inner_talkback {};
+    let outer_talkback = Cell_outer_talkback {}; let inner_talkback = Cell_inner_talkback {}; let inner_live = Cell_inner_live {}; let inner_gen = Cell_inner_gen {}; let ended = Cell_ended {};
     proof { g@ = G { dn: dn_recv(g@.dn, message), ..g@ }; }
     BODY!("sink_talkback");
 }
@@ -346,6 +359,7 @@ pub fn flatten__outer_source_talkback<T>(h: &mut Heap, g: &mut Ghost<G<T>>, c: &
         message is Handshake ==> old(g)@.outer.phase == Up::Subscribing,
         !(message is Handshake) ==> old(g)@.outer.phase == Up::Live,
         message is Data ==> message->Data_0.gen@ == old(g)@.inners.len(),
+        message is Data ==> old(g)@.inners.len() < usize::MAX, // assumption: the outer source emits fewer than 2^64 inner sources (the generation counter does not wrap)
         !(message is Handshake) && c.pullable ==> old(g)@.outer.data.len() < old(g)@.outer.pulls, // profile P
     ensures
         INV!(*final(h), final(g)@, *c),
@@ -353,15 +367,16 @@ pub fn flatten__outer_source_talkback<T>(h: &mut Heap, g: &mut Ghost<G<T>>, c: &
         message is Error && old(g)@.dn.phase == Dn::Live ==> final(g)@.dn.phase == Dn::EndedByUs && final(g)@.dn.err == Some(message->Error_0) && nothing_alive(final(g)@), /* @C05 an outer error reaches the sink, the inner is disposed */
         message is Data ==> final(g)@.inners.len() > old(g)@.inners.len(), /* @C11 each inner the outer emits is subscribed */
 {
-    let outer_talkback = Cell_outer_talkback {}; let inner_talkback = Cell_inner_talkback {};
+    let outer_talkback = Cell_outer_talkback {}; let inner_talkback = Cell_inner_talkback {}; let inner_live = Cell_inner_live {}; let inner_gen = Cell_inner_gen {}; let ended = Cell_ended {};
     let sink = SinkH {}; let talkback = Tok_sink_talkback {};
     proof { g@ = G { outer: up_recv(g@.outer, message), ..g@ }; }
     BODY!("outer_source_talkback");
 }
 
 #[verifier::exec_allows_no_decreases_clause]
-pub fn flatten__inner_source_talkback<T>(h: &mut Heap, g: &mut Ghost<G<T>>, c: &Cap, k: Ghost<int>, message: Message<T, InnerTb>)
+pub fn flatten__inner_source_talkback<T>(h: &mut Heap, g: &mut Ghost<G<T>>, c: &Cap, k: Ghost<int>, my_gen: usize, message: Message<T, InnerTb>)
     requires
+        my_gen == k@ + 1,
         message is Handshake ==> INVX!(act pull | *old(h), old(g)@, *c),
         !(message is Handshake) ==> INV!(*old(h), old(g)@, *c),
         0 <= k@ < old(g)@.inners.len(), !(message is Pull),
@@ -374,7 +389,7 @@ pub fn flatten__inner_source_talkback<T>(h: &mut Heap, g: &mut Ghost<G<T>>, c: &
         message is Error && old(g)@.dn.phase == Dn::Live ==> final(g)@.dn.phase == Dn::EndedByUs && final(g)@.dn.err == Some(message->Error_0) && nothing_alive(final(g)@), /* @C05 an inner error reaches the sink, the outer is disposed */
         message is Handshake ==> final(g)@.inners[k@].pulls >= 1, /* @C11 an inner is pulled once on greeting */
 {
-    let outer_talkback = Cell_outer_talkback {}; let inner_talkback = Cell_inner_talkback {};
+    let outer_talkback = Cell_outer_talkback {}; let inner_talkback = Cell_inner_talkback {}; let inner_live = Cell_inner_live {}; let inner_gen = Cell_inner_gen {}; let ended = Cell_ended {};
     let sink = SinkH {};
     proof {
         if message is Data { g@ = G { arr: g@.arr.push(message->Data_0), ..g@ }; }
